@@ -1,10 +1,16 @@
 #!/bin/sh
-# Runs every seeded change under /verif/seeded against its property's check (default: quick).
-tier=${1:-quick}
-for d in /verif/seeded/*/; do
+# Runs every seeded change under /verif/seeded against its property's check (default: quick), P at a time.
+# usage: sweep_seeded.sh [tier] [parallelism] [name-filter-regex]
+tier=${1:-quick}; par=${2:-4}; filt=${3:-.}
+one() {
+  d=$1; tier=$2
   id=$(basename $d); prop=$(echo $id | cut -d- -f1 | cut -c1-3)
-  out=$(SEED_LINES=3 /verif/tools/verify_seed.sh $d $id $prop $tier 2>&1)
+  out=$(VSEED_KEEP=1 SEED_LINES=3 /verif/tools/verify_seed.sh $d $id $prop $tier 2>&1)
   suite=$(echo "$out" | grep -c "suite: green"); demo1=$(echo "$out" | grep -c "vseed.*exit 1"); demo0=$(echo "$out" | grep -c "/repo: exit 0")
   det=$(echo "$out" | grep -c "^VIOLATION property=$prop")
-  echo "$id suite_green=$suite demo_fails_with=$demo1 demo_passes_without=$demo0 detected_by_${prop}_${tier}=$det"
-done
+  reb=$(echo "$out" | grep -c "patch rebased"); napp=$(echo "$out" | grep -c "PATCH DOES NOT APPLY")
+  echo "$id suite_green=$suite demo_fails_with=$demo1 demo_passes_without=$demo0 detected_by_${prop}_${tier}=$det rebased=$reb does_not_apply=$napp"
+}
+if [ "$1" = "--one" ]; then one "$2" "$3"; exit 0; fi
+ls -d /verif/seeded/*/ | grep -E "$filt" | xargs -P $par -I{} sh $0 --one {} $tier
+rm -rf /verif/.build/mutant/* 2>/dev/null
